@@ -230,10 +230,14 @@ def execute(item, only=None):
             b.reset(0.25 * cap)
             if b._current_charge != 0.25 * cap or b.current_charging_power != 0:
                 rep("%s:reset-to-value" % model, "reset(x) left charge %r, power %r" % (b._current_charge, b.current_charging_power), b._current_charge, 0.25 * cap, ctx)
-            # an explicit reset(x) does not redefine the initial state
-            b.charge(pilot, V, T)
+            # an explicit reset(x) gives a battery that behaves like a fresh one holding x (whatever happened before:
+            # it may have been charged to exactly full) and does not redefine the initial state
+            r5 = b.charge(pilot, V, T)
+            r6 = make(model, cap, 0.25 * cap, pmax, ts).charge(pilot, V, T)
+            if r5 != r6:
+                rep("%s:reset-to-value-then-charge" % model, "after reset(x) charge() returns %r, a fresh battery holding x %r" % (r5, r6), r5, r6, ctx)
             b.reset()
-            stats["calls"] += 1
+            stats["calls"] += 2
             if b._current_charge != charge0 or b.current_charging_power != 0:
                 rep("%s:reset-after-reset-to-value" % model, "reset(x) followed by reset() restores %r, the initial charge is %r" % (b._current_charge, charge0), b._current_charge, charge0, ctx)
             b.reset(0.25 * cap)
